@@ -2,8 +2,6 @@ package byron
 
 // Overlay shim: accessors for unexported functions (nothing else).
 
-func VerifLargestPowerOfTwoBelow(n int) int { return largestPowerOfTwoBelow(n) }
-
 // VerifMainBlock builds a decoded-looking main block: header with the given body proof, n
 // transactions with the given preserved body/witness bytes, and the preserved delegation and
 // update payload bytes.
